@@ -141,7 +141,9 @@ def run_tlc(module, cfg, wd, workers=8, timeout=1500, env=None, simulate=None, d
     e["JAVA_TOOL_OPTIONS"] = java_opts + " -Xmx" + heap + " -Djava.io.tmpdir=" + tmpd
     if env:
         e.update(env)
-    cmd = ["tlc", "-workers", str(workers), "-config", cfg, "-metadir", os.path.join(wd, "states"), "-cleanup", "-noGenerateSpecTE"]
+    # -checkpoint 0: no checkpoints (the depth-first state queue used for trace validation cannot be checkpointed: a run that lasts
+    # longer than the default interval of 30 minutes would end with an exception)
+    cmd = ["tlc", "-workers", str(workers), "-config", cfg, "-metadir", os.path.join(wd, "states"), "-cleanup", "-noGenerateSpecTE", "-checkpoint", "0"]
     if coverage:
         cmd += ["-coverage", "1"]
     if simulate:
